@@ -9,6 +9,9 @@ import common
 import setupsim as S
 
 
+MS_PLAIN, MS_DIRECTED, REFS, NEIGHBOURS = 40, 24, 36, 30      # quick-tier sizes of the families added in round 5
+
+
 def gen_scenario(rng):
     w = S.gen_world(rng)
     reqs = [S.gen_request(rng, w, allow_fail=0.0) for _ in range(rng.choice([0, 1, 2, 3]))]
@@ -60,11 +63,31 @@ def gen_scenario_full(rng):
 def contributions_state(res, env, name, version):
     """(present elements/values, absent elements/values) of one product version in env"""
     paths, sets, _ = S.own_contributions(res, name, version)
+    own_dir = S.product_dirs(res)[(name, version)]
+    under = lambda x: x == own_dir or x.startswith(own_dir + "/")
     pres, miss = [], []
     for var, val, d in paths:
-        (pres if val in [x for x in (env.get(var) or "").split(d) if x] else miss).append((var, val))
+        have = [x for x in (env.get(var) or "").split(d) if x]
+        # a value that refers to other variables contributes the elements of its expansion in env; such an element
+        # is the version's OWN (counts as a residue when the version is not set up) only if it lies in its directory:
+        # the same site directory may be contributed by several products
+        for el in S.path_contribution_elems(val, d, env):
+            if el in have:
+                if not S.has_ref(val) or under(el):
+                    pres.append((var, el))
+            else:
+                miss.append((var, el))
     for var, val in sets.items():
-        (pres if env.get(var) == val else miss).append((var, val))
+        ref = S.has_ref(val)
+        if ref:
+            val = S.expand_refs(val, env)
+            if not val:
+                continue            # cannot be expanded from env / expands to nothing: the line is skipped
+        if env.get(var) == val:
+            if not ref or any(under(x) for x in val.replace(";", ":").split(":")):
+                pres.append((var, val))
+        else:
+            miss.append((var, val))
     return pres, miss
 
 
@@ -90,11 +113,16 @@ def inv_violation(s, res, env):
 
 def closure_oracle(ctx, s, res, rec, case):
     """the closure clause, evaluated on the real run: when every product asked for during the request (successful
-    branches and failed optional ones alike) was decided at one version, nothing reachable was set up before, and
-    the request succeeded, the products set up among the reachable ones are exactly the dependency closure -
-    required lines, plus optional lines whose product sets up (its version is found, its required dependencies set
-    up, and every command of its table can be executed) - each at that version.  (No -j line in the tables
-    read, no --just / --max-depth / --keep: the conditions of closure_exact in coq/Props/C01.v.)"""
+    branches and failed optional ones alike) was decided at one version and the request succeeded, the products set
+    up are the dependency closure - required lines, plus optional lines whose product sets up (its version is found,
+    its required dependencies set up, and every command of its table can be executed); a line that says -j
+    contributes its product and not that product's dependencies - each at the decided version.
+    Nothing reachable set up before: the products set up among the reachable ones are EXACTLY the closure (the
+    clause as proved: closure_exact in coq/Props/C01.v, there without -j lines).
+    Something reachable set up before: every member of the closure is set up at its version, except the members
+    that the unsetup of a replaced version may have taken away (DESIGN section 7: a version that is replaced is
+    unset up together with the dependencies of ITS table - unless it is asked for with -j, which unsets it alone).
+    (No --just / --max-depth / --keep on the request.)"""
     rq = rec["request"]
     if not rec["ok"] or not rq.get("fwd", True) or rq.get("keep") or rq.get("just") or rq.get("max_depth") is not None:
         return
@@ -106,60 +134,87 @@ def closure_oracle(ctx, s, res, rec, case):
         D[n] = v
     touched = S.touched_names(res, rq["name"])
     before = S.setup_records(rec["before"])
-    if any(n in before for n in touched):
-        ctx.bump("closure-oracle:something-set-up-before")
-        return
+    prior = any(n in before for n in touched)
 
-    def lines(n):
+    def lines(n, v=None):
         out = []
-        for a in res["parsed"]["%s %s" % (n, D[n])]["actions"]:
+        for a in res["parsed"]["%s %s" % (n, v or D[n])]["actions"]:
             f = a.split(",")
             if f[0] == "S":
                 out.append((f[1] == "1", common.dec(f[2]), f[3] == "1"))
         return out
+    env_names = set(rec["before"]) | set(rec["after"])
+
+    def executable(n):
+        # a table with a command that cannot be executed does not set up: a reference without ? and without default
+        # to a variable that no environment of the request defines
+        import re
+        for a in res["parsed"]["%s %s" % (n, D[n])]["actions"]:
+            if a[:2] in ("P,", "E,"):
+                for x in a.split(",")[1:]:
+                    for opt, key, dflt in re.findall(r"\$(\?)?{([^-}]*)(?:-([^}]+))?}", common.dec(x)):
+                        if not opt and not dflt and key not in env_names:
+                            return False
+        return True
     memo = {}
 
-    class JustLine(Exception):
-        pass
-
-    def sets_up(n):
-        if n not in memo:
-            if D.get(n) is None:
-                memo[n] = False
-            else:
-                if any(j for (opt, x, j) in lines(n)):
-                    raise JustLine()           # a -j line in a table that is read: outside the clause as proved
-                # a table with a command that cannot be executed (the generator's only such command refers to a
-                # variable that nothing defines) does not set up either
-                raises = any("${UNDEFINED_VARIABLE}" in common.dec(x)
-                             for a in res["parsed"]["%s %s" % (n, D[n])]["actions"] if a[:2] in ("P,", "E,")
-                             for x in a.split(",")[1:])
-                memo[n] = not raises and all(sets_up(x) for (opt, x, j) in lines(n) if not opt)
-        return memo[n]
-    closure, todo = set(), [rq["name"]]
-    try:
-        sets_up(rq["name"])
-        while todo:
-            n = todo.pop()
-            if n in closure:
-                continue
-            closure.add(n)
-            for (opt, x, j) in lines(n):
-                if sets_up(x):
-                    todo.append(x)
-    except JustLine:
-        ctx.bump("closure-oracle:-j-line")
+    def sets_up(n, alone=False):
+        """does the product set up?  alone: asked for with -j (its dependency lines are not read)"""
+        if D.get(n) is None or "%s %s" % (n, D[n]) not in res["parsed"]:
+            return False
+        if (n, alone) not in memo:
+            memo[(n, alone)] = True         # (acyclic worlds)
+            memo[(n, alone)] = executable(n) and (alone or all(sets_up(x, j) for (opt, x, j) in lines(n) if not opt))
+        return memo[(n, alone)]
+    closure, todo, has_j = {}, [(rq["name"], False)], False
+    while todo:
+        n, alone = todo.pop()
+        if n in closure and (closure[n] is False or alone):
+            continue
+        closure[n] = alone and closure.get(n, True)
+        if alone:
+            has_j = True
+            continue
+        for (opt, x, j) in lines(n):
+            if sets_up(x, j):
+                todo.append((x, j))
+    if not sets_up(rq["name"]):
         return
-    ctx.bump("closure-oracle:evaluated")
-    if len(closure) > 2:
-        ctx.bump("closure-oracle:evaluated-3-or-more-products")
     after = S.setup_records(rec["after"])
     expected = {n: D[n] for n in closure}
-    observed = {n: v for n, v in after.items() if n in touched}
-    if expected != observed:
-        ctx.fail("closure", case, expected=expected, observed=observed,
-                 what="setup %s: the products set up among the reachable ones are %r, the dependency closure at the "
-                      "decided versions is %r" % (rq["name"], observed, expected))
+    if not prior:
+        ctx.bump("closure-oracle:evaluated")
+        if has_j:
+            ctx.bump("closure-oracle:evaluated-with--j-lines")
+        if len(closure) > 2:
+            ctx.bump("closure-oracle:evaluated-3-or-more-products")
+        observed = {n: v for n, v in after.items() if n in touched}
+        if expected != observed:
+            ctx.fail("closure", case, expected=expected, observed=observed,
+                     what="setup %s: the products set up among the reachable ones are %r, the dependency closure at the "
+                          "decided versions is %r" % (rq["name"], observed, expected))
+        return
+    # something reachable was set up before: what the unsetup of a replaced version may take away
+    g = S.world_graph_lines(res)
+    removable = set()
+    for n, v in before.items():
+        if n in D and D[n] is not None and D[n] != v and not closure.get(n, False) and "%s %s" % (n, v) in res["parsed"]:
+            # n is replaced, and not by a -j line alone: its old table is unset up recursively
+            todo2 = [x for (opt, x, j) in lines(n, v)]
+            while todo2:
+                m = todo2.pop()
+                if m not in removable:
+                    removable.add(m)
+                    todo2 += [x for (x, j) in g.get(m, ())]
+    ctx.bump("closure-oracle:evaluated-with-prior-set-ups")
+    if has_j:
+        ctx.bump("closure-oracle:evaluated-with-prior-set-ups-and--j-lines")
+    missing = {n: v for n, v in expected.items() if n not in removable and after.get(n) != v}
+    if missing:
+        ctx.fail("closure-member-missing", case, expected=missing, observed={n: after.get(n) for n in missing},
+                 what="setup %s: %r belong to the dependency closure at the decided versions (no product was asked for "
+                      "in two versions, none of them is below a replaced version that is unset up with its "
+                      "dependencies) but are set up as %r" % (rq["name"], missing, {n: after.get(n) for n in missing}))
 
 
 def oracle(ctx, s, res):
@@ -175,7 +230,7 @@ def oracle(ctx, s, res):
         return
     case = {"world": s["world"], "requests": s["requests"], "env0": s["env0"]}
     # the version named explicitly is the version set up
-    if rq.get("version") and sa.get(rq["name"]) != rq["version"]:
+    if rq.get("version") and not S.parse_relational(rq["version"]) and sa.get(rq["name"]) != rq["version"]:
         ctx.fail("explicit-version", case, expected=rq["version"], observed=sa.get(rq["name"]),
                  what="setup %s %s recorded version %s" % (rq["name"], rq["version"], sa.get(rq["name"])))
         return
@@ -214,7 +269,103 @@ def oracle(ctx, s, res):
         closure_oracle(ctx, s, res, r, case)
 
 
+def oracle_ms(ctx, s, res):
+    """the same clauses on a world with several stacks: a product is identified by its version AND the stack that
+    SETUP_NAME records (setupsim.ms_records reads the value the way findSetupVersion does)"""
+    rec = res["records"][-1]
+    rq = rec["request"]
+    before, after = rec["before"], rec["after"]
+    sb, sa = S.ms_records(before), S.ms_records(after)
+    switched = sorted(n for n in sb if sa.get(n) != sb[n])
+    shape = "ms/%s/%s/%s/switches-%d" % ("explicit" if rq.get("version") else "bare",
+                                         "selected-stacks" if (rq.get("Z") is not None or rq.get("z")) else "whole-path",
+                                         "ok" if rec["ok"] else "failed", min(len(switched), 3))
+    ctx.count(1, key=shape, nontrivial=json.dumps([s["world"], s["requests"]], sort_keys=True) if rec["ok"] else None)
+    if not rec["ok"]:
+        return
+    case = {"world": s["world"], "requests": s["requests"], "env0": s["env0"]}
+    name = rq["name"]
+    if rq.get("fwd", True):
+        if rq.get("version") and not S.parse_relational(rq["version"]) and (sa.get(name) or (None,))[0] != rq["version"]:
+            ctx.fail("explicit-version", case, expected=rq["version"], observed=sa.get(name),
+                     what="setup %s %s recorded %r" % (name, rq["version"], sa.get(name)))
+            return
+        # the stack recorded is the one the product was found in, and one the command selected
+        found = rec["decisions"][0] if rec["decisions"] else None
+        got = list(sa[name][:2]) if name in sa else None
+        sel = S.selected_roots(res["roots"], rq)
+        if found is None or got != found or got[1] not in sel:
+            ctx.fail("recorded-stack", case, expected=S.strip_roots(res, found), observed=S.strip_roots(res, got),
+                     what="setup %s: the product was found as %r (stacks selected: %r), SETUP_%s records %r" % (
+                         name, S.strip_roots(res, found), S.strip_roots(res, sel), name.upper(), S.strip_roots(res, got)))
+            return
+    for n in switched:
+        old = sb[n]
+        info = S.ms_entry(res, n, old[0], old[1])
+        if info is None:
+            continue
+        cur = S.ms_entry(res, n, sa[n][0], sa[n][1]) if n in sa else None
+        pres, _ = S.ms_contributions_state(info, after, minus=cur)
+        if pres:
+            ctx.fail("residue", case, expected="nothing of %s %s (stack%d) left" % (n, old[0], info["stack"]), observed=S.strip_roots(res, pres[:4]),
+                     what="%s %s of stack%d was replaced by %r during the request but %r is still present" % (
+                         n, old[0], info["stack"], S.strip_roots(res, sa.get(n)), S.strip_roots(res, pres[:3])))
+            return
+        d = info["dir"]
+        for var, val in after.items():
+            if not var.startswith("SETUP_") and any(x == d or x.startswith(d + "/") for x in val.replace(";", ":").split(":")):
+                ctx.fail("residue-dir", case, expected=None, observed=S.strip_roots(res, {var: val}),
+                         what="%s still refers to the directory of the replaced %s %s of stack%d" % (var, n, old[0], info["stack"]))
+                return
+    for n, (v, root, fl) in sa.items():
+        info = S.ms_entry(res, n, v, root)
+        if info is None:
+            ctx.fail("recorded-undeclared", case, expected="a declared product", observed=S.strip_roots(res, [n, v, root]),
+                     what="SETUP_%s records %s in %s, where it is not declared" % (n.upper(), v, S.strip_roots(res, root)))
+            return
+        if after.get(n.upper() + "_DIR") != info["dir"]:
+            ctx.fail("dir-variable", case, expected=S.strip_roots(res, info["dir"]), observed=S.strip_roots(res, after.get(n.upper() + "_DIR")),
+                     what="%s_DIR does not hold the directory of %s %s as declared in the recorded stack (stack%d)" % (
+                         n.upper(), n, v, info["stack"]))
+            return
+        if fl != (info.get("flavor") or S.FLAVOR):
+            ctx.fail("recorded-flavor", case, expected=info.get("flavor"), observed=fl,
+                     what="SETUP_%s records flavor %s, %s %s is declared in that stack under %s" % (n.upper(), fl, n, v, info.get("flavor")))
+            return
+    # each product at the version the resolution order designates: a look-up by relational expression designates the
+    # newest version, over all the stacks the command selected, that satisfies the expression
+    sel = S.selected_roots(res["roots"], rq)
+    for (m, alts, d) in S.ms_expression_requests(res, rec):
+        want = S.designated_by_expression(res, sel, m, alts)
+        got = d[0] if d else None
+        ctx.bump("ms-expression-look-ups-evaluated")
+        if len(set(i["root"] for i in res["parsed"] if i["name"] == m and i["root"] in sel and S.satisfies(i["version"], alts))) > 1:
+            ctx.bump("ms-expression-look-ups-evaluated:satisfying-versions-in-both-stacks")
+        if want != got:
+            ctx.fail("designated-version", case, expected={m: want}, observed={m: got},
+                     what="setup %s: %s was looked up by the expression %r; the newest version that satisfies it in the selected "
+                          "stacks %r is %s, the version chosen is %s" % (name, m, " || ".join("%s %s" % a for a in alts),
+                                                                          S.strip_roots(res, sel), want, got))
+            return
+    if S.ms_inv_violation(res, before) is None:
+        bad = S.ms_inv_violation(res, after)
+        ctx.bump("ms-invariant-held-before")
+        if bad:
+            ctx.fail("invariant", case, expected="consistent environment", observed=S.strip_roots(res, bad), what=S.strip_roots(res, bad))
+            return
+
+
+def m_dep_variable_after_dependency(f):
+    """known finding D61: see setupsim.m_dep_variable_residue"""
+    return S.m_dep_variable_residue(f)
+
+
+def register(ctx):
+    ctx.matchers["c01.dep_variable_after_dependency"] = m_dep_variable_after_dependency
+
+
 def run(ctx):
+    register(ctx)
     ctx.rule = ("random worlds (3-5 products x 1-3 versions, acyclic tables with path/envSet/alias commands and required/"
                 "optional/versioned/expression/-j dependencies, diamonds with conflicting versions, stack path with or "
                 "without a blank), 0-3 prior real setups (so other versions of the same products are already set up), "
@@ -225,8 +376,15 @@ def run(ctx):
                 "VERSION / FLAVOR, UPS_DIR, PRODUCTS, PRODUCT_DIR_EXTRA, if / else if / else blocks on type and flavor, "
                 "empty branches) with setups and unsetups, and directed tables (first-spelling rule of PRODUCT_DIR, "
                 "replacement in the first argument, option words of dependency lines, a fall-back-flavor product with "
-                "a flavor condition); non-trivial = the final request "
-                "succeeds; distinct = distinct (world, requests)")
+                "a flavor condition); then worlds of two stacks (random split, and directed: the same version in both "
+                "stacks with the copy of the later stack set up and then replaced; look-ups by relational expression whose "
+                "newest satisfying version is only in the later stack, as a table line and as the top-level request); "
+                "tables whose values refer to other variables (the directory variable of a dependency set up by an "
+                "earlier line in envSet and - findings D60 / D61 - in path commands; list-valued variables of the user's "
+                "environment in the forms ${V}, $?{V}, ${V-default}) with the owner's and the dependency's version being "
+                "replaced; neighbours (names in a prefix relation, -j on table lines, the exact block of an expanded "
+                "table, a product below the request set up beforehand with its own dependencies); non-trivial = the "
+                "final request succeeds; distinct = distinct (world, requests)")
     ctx.trusted_base = common.COMMON_TRUSTED + [
         "two model runs per request: Model/Setup.v fed with the decisions of the real resolver (captured by a spy), and "
         "the composed model Model/SetupFull.v (setup + the resolver of C03, alreadySetupProducts, per-line VRO) fed with "
@@ -246,7 +404,12 @@ def run(ctx):
         "of one key) and relational expressions with alternatives over them; the declarations reach the model in the "
         "listing order of Database.findProducts (version names sorted as strings)",
         "harness/setupsim.py line_infos / model_line_full: encoding of processArgs results and product tags"]
-    ctx.assumptions = ["one stack, one flavor, declared products only (no setup -r, no --force)",
+    ctx.assumptions = ["declared products only (no setup -r, no --force); the theorems of the one-stack model and their "
+                       "ms_ counterparts for several stacks (closure clause: one stack; several stacks by the tie and "
+                       "the designation oracle for look-ups by relational expression)",
+                       "table values that refer to other variables are outside WF (wf_path / wf_set: values free of "
+                       "references): covered by the tie, the oracles, envset_is_taken_back_whatever_its_value and the "
+                       "Examples dep_variable_residue_refuted (finding D61, matcher c01.dep_variable_after_dependency)",
                        "composed model: dependency lines of the forms name / name version / name version [expr] / "
                        "name [expr] / name relational-expression, with or without -j; no -t, --vro, -k on a line; the "
                        "shipped configuration (Generated/Config.v); closure_exact: conflict_free, no --max-depth, "
@@ -257,32 +420,53 @@ def run(ctx):
                        "WF2 of Proofs/SetupInv.v for the theorems (contributions of different names and versions apart, "
                        "acyclic dependency graph over names, single-word names and versions)"]
     ctx.check_theorems()
-    scenarios = S.corpus("C01") + [gen_scenario(ctx.rng) for _ in range(ctx.size(200, 3000))]
+    scenarios = [c for c in S.corpus("C01") if not S.is_ms(c["world"])] + [gen_scenario(ctx.rng) for _ in range(ctx.size(150, 3000))]
     for s in scenarios[:3]:
         ctx.sample({"requests": s["requests"], "env0": s["env0"], "products": s["world"]["products"]})
     for i in range(0, len(scenarios), 400):
         S.run_scenarios(ctx, scenarios[i:i + 400], oracle)
     # generated after (and so without disturbing) the scenarios above
-    extra = [gen_scenario_full(ctx.rng) for _ in range(ctx.size(80, 1200))]
+    extra = [gen_scenario_full(ctx.rng) for _ in range(ctx.size(60, 1200))]
     for i in range(0, len(extra), 400):
         S.run_scenarios(ctx, extra[i:i + 400], oracle)
     # scenarios aimed at the text-fed model (coq/Model/SetupText.v): table texts under the other spellings and layouts of
     # the grammar, the other variables expandEupsVariables replaces, conditional blocks; then the directed ones
-    textual = S.directed_text_scenarios() + [S.gen_scenario_text(ctx.rng) for _ in range(ctx.size(80, 1200))]
+    textual = S.directed_text_scenarios() + [S.gen_scenario_text(ctx.rng) for _ in range(ctx.size(60, 1200))]
     for i in range(0, len(textual), 400):
         S.run_scenarios(ctx, textual[i:i + 400], oracle)
 
 
     # worlds with version names of C10's grammar (1.0.1 1.0+1 1.0-rc1 1.10 1.9, spellings of one key) and relational
     # expressions over them: the composed model with the real comparator (coq/Model/ResolveReal.v) decides every version
-    versions = S.directed_version_scenarios() + [S.gen_scenario_versions(ctx.rng, "plain") for _ in range(ctx.size(120, 1500))]
+    versions = S.directed_version_scenarios() + [S.gen_scenario_versions(ctx.rng, "plain") for _ in range(ctx.size(80, 1500))]
     for i in range(0, len(versions), 400):
         S.run_scenarios(ctx, versions[i:i + 400], oracle)
+    # several stacks on EUPS_PATH (coq/Model/SetupMS.v, SetupMSFull.v, SetupMSText.v): the same name and version declared
+    # in two stacks with different directories, tables, flavors and current tags, a version only in the second stack,
+    # requests with -Z / -z (through Eups and through setupcmd.EupsSetup), prior set-ups from the other stack
+    ms = [c for c in S.corpus("C01") if S.is_ms(c["world"])] + [S.gen_scenario_ms(ctx.rng, "plain") for _ in range(ctx.size(MS_PLAIN, 1200))] + \
+         [S.gen_scenario_ms_directed(ctx.rng, "plain") for _ in range(ctx.size(MS_DIRECTED, 600))]
+    for i in range(0, len(ms), 400):
+        S.run_scenarios_ms(ctx, ms[i:i + 400], oracle_ms)
+    # table values that refer to OTHER variables (the directory variable of a dependency set up by an earlier line, list-
+    # valued variables of the user's environment), the version of the owner and of the dependency being replaced; and
+    # neighbours: names in a prefix relation, -j on table lines and the block of an expanded table, a product below the
+    # request set up beforehand together with dependencies of its own
+    refs = [S.gen_scenario_refs(ctx.rng, "plain") for _ in range(ctx.size(REFS, 600))] + \
+           [S.gen_scenario_neighbours(ctx.rng) for _ in range(ctx.size(NEIGHBOURS, 600))]
+    for sc in refs:
+        ctx.bump("family:" + sc["world"]["family"])
+    for i in range(0, len(refs), 400):
+        S.run_scenarios(ctx, refs[i:i + 400], oracle)
 
 
 def replay(ctx, path):
+    ctx.matchers["c01.dep_variable_after_dependency"] = m_dep_variable_after_dependency
     obj = json.load(open(path))
-    S.run_scenarios(ctx, [obj["input"]], oracle)
+    if S.is_ms(obj["input"]["world"]):
+        S.run_scenarios_ms(ctx, [obj["input"]], oracle_ms)
+    else:
+        S.run_scenarios(ctx, [obj["input"]], oracle)
     bad = [f for f in ctx.failures if not ctx._known(f)] or ctx.disagreements
     print("replay %s: %s" % (path, "still fails" if bad else "passes"))
     return 1 if bad else 0
